@@ -2,12 +2,20 @@
 C04 — neighbours of the NESTED scheme: arithmetic layer.
 
 * the model's `neighbourParts` in a form suitable for case analysis (`nbZ`: the zone of the shifted coordinates is an
-  explicit argument), `neighbourParts_valid`, `neighbourParts_none_iff`, `neighbours_count`;
-* the specification's `key` in linear form (no `%` by a variable): `key_eq`, and, for every base cell, the key of the
-  lattice corner `(a, c) ∈ [0, n]²` of that base cell (`Kp_0 … Kp_11`).
+  explicit argument; `nbAt`: the neighbour only depends on the base cell and on the shifted coordinates);
+* `neighbourParts_valid`; `neighbourParts_none_iff` (where there is no neighbour), `neighbours_count` (8, or 7 exactly
+  for the `Special` cells, `n ≥ 2`), `neighbours_count_one` (6 at `n = 1`);
+* `centerXY_eq`: the centre of the specification is `Layer.centerXY`;
+* the specification's `key` in linear form (no `%` by a variable): `key_eq`, `vkey_eq`, and, for every base cell, the key
+  of the lattice corner `(a, c) ∈ [0, n]²` of that base cell (`Kp_0 … Kp_11`);
+* `Glue`: the gluing relation of the twelve closed base cells (proved equivalent to key equality in
+  `TopoGlue{N,E,S}.lean`).
+Continued in `TopoLabel.lean` (`neighbour_labelled`, `neighbours_distinct`) and `TopoComplete.lean`
+(`neighbours_complete`, `neighbourParts_symmetric`, `neighbours_exact`).
 
 The statements hold for every grid side `1 ≤ n ≤ 2^32`: the model passes the shifted coordinates as `u32`
-(`% 4294967296`), so for larger `n` (which no `u32` nside can reach) it would not compute the neighbour.
+(`% 4294967296`), so for larger `n` (which no `u32` nside can reach) it would not compute the neighbour
+(example at the end of `TopoComplete.lean`).
 -/
 import HpxVerif.Lemmas.TopoSpec
 
